@@ -27,7 +27,16 @@ def _run(args):
             problems.append(r)
     hang = [l for l in p.stderr.splitlines() if l.startswith("HANG")]
     if hang:
-        problems.append({"mode": label, "input": hang[0].split("\t", 2)[-1], "problem": "did not terminate (watchdog)"})
+        # the no-progress watchdog fired: confirm the input alone (a loaded machine must not turn slowness into an alarm)
+        src = hang[0].split("\t", 2)[-1]
+        try:
+            src_text = json.loads(src) if src.startswith('"') else src
+        except ValueError:
+            src_text = src
+        q = subprocess.run([common.IVH, "total", "--mode", "stdin"], input=json.dumps(src_text) + "\n", capture_output=True, text=True, encoding="utf-8", timeout=600)
+        if q.returncode == 0 and "HANG" not in q.stderr:
+            raise common.MachineryError(f"watchdog fired in {label} but the input terminates when run alone (machine overloaded?): {src[:200]!r}; the shard was not completed - re-run")
+        problems.append({"mode": label, "input": src, "problem": "did not terminate (watchdog, confirmed alone)"})
         summary = summary or {"inputs": 0, "lex_ok": 0, "parse_ok": 0, "check_ok": 0, "emit_ok": 0, "fmt_ok": 0, "outcomes": []}
     elif p.returncode != 0:
         # abort / stack overflow / signal: the last in-flight input is unknown here, re-run is done by the caller
